@@ -24,7 +24,7 @@ SELFTEST = {'quick': 12, 'thorough': 128}
 EPS = 2.220446049250313e-16
 REQUIRED_PROBES = ['kind_norms', 'kind_collector', 'kind_plot', 'kind_driver', 'replicated_layout', 'nonuniform_r_v', 'slots_wrapped', 'rows_across_restart', 'driver_rows_checked']
 RULE = ("Every check: in 12% of the cases one or two bystander ranks share the simulated job and the code under test runs on world.Split(...); one case in HASHSEED_EVERY is re-run in fresh interpreters under other string-hash seeds and every rank's trace (collectives, data sent, result) must agree. "
-        'Also: a second grid with the same sizes and end points in the same case (30% of norms), collector times that are not multiples of dt (30%), integer coordinate arrays (8%). '
+        'Also: a second grid with the same sizes and end points in the same case (30% of norms), collector times that are not multiples of dt (30%), integer coordinate arrays (8%), fields of 0.1-0.8 million points (3%). '
         'case kinds (swarm-weighted): norms = random sign-changing (or constant one) 4-D field and complex '
         '3-D field on seeded non-uniform r and v grids, every process grid, the norm/energy classes in each '
         'of the three 4-D layouts and in the 2-D-distributed and the replicated 3-D layouts of the driver\'s '
